@@ -17,7 +17,7 @@ from ..common import rng_for, b2j
 
 LEVEL = "exploration"
 SHARDS = {"quick": 1, "thorough": 16}
-REQUIRED = ("families_with_optional_int_default_in_little_endian_class", "embedded_reference_defaults_checked", "implicit_reference_declarations_seen", "default_packets_compared", "override_packets_compared", "packs_compared", "freshness_checks", "user_defaults_seen",
+REQUIRED = ("families_with_optional_int_default_in_little_endian_class", "shared_configuration_defaults_checked", "embedded_reference_defaults_checked", "implicit_reference_declarations_seen", "default_packets_compared", "override_packets_compared", "packs_compared", "freshness_checks", "user_defaults_seen",
             "prototype_instance_defaults_seen", "fixed_data_defaults", "variable_data_defaults", "list_defaults", "optional_defaults",
             "subset_size_1", "subset_size_2", "subset_all", "f2_probe_runs")
 MIN_NONTRIVIAL = 150
@@ -237,13 +237,52 @@ def embed_probe(run):
         common.drop_scratch(d)
 
 
+def shared_config_probe(run):
+    """Several classes whose __bisturi__ is ONE dict object (a module-level constant reused by every declaration of a protocol):
+    each class still holds its own declared defaults, in whatever order the classes are first constructed."""
+    d = common.scratch_dir("bvf_c19s_")
+    try:
+        for opts in ("{'endianness': 'little'}", "{}", "{'generate_for_pack': False, 'generate_for_unpack': False}"):
+            src = render.HEADER + ("CONF = %s\n\n\n"
+                                   "class HelloA(Packet):\n    __bisturi__ = CONF\n    v = Int(2, default=3)\n    tag = Data(3, default=b'HEL')\n    n = Int(1)\n\n\n"
+                                   "class HelloB(Packet):\n    __bisturi__ = CONF\n    v = Int(2, default=2)\n    tag = Data(3, default=b'XYZ')\n    n = Int(1, default=9)\n\n\n"
+                                   "class Other(Packet):\n    __bisturi__ = CONF\n    k = Int(1, default=7)\n    l = Int(1).repeated(2, default=[1, 2])\n" % opts)
+            module, path = render.load_source(src, d)
+            little = "little" in opts
+            want = {"HelloA": ((3, b"HEL", 0), (b"\x03\x00" if little else b"\x00\x03") + b"HEL\x00"),
+                    "HelloB": ((2, b"XYZ", 9), (b"\x02\x00" if little else b"\x00\x02") + b"XYZ\x09"),
+                    "Other": ((7, [1, 2]), b"\x07\x01\x02")}
+            for order in (("HelloA", "HelloB", "Other", "HelloB", "HelloA"), ("Other", "HelloB", "HelloA")):
+                for name in order:
+                    run.count("shared_configuration_defaults_checked")
+                    w = {"source": src, "steps": "default construction in the order %s" % (order,), "class": name}
+                    try:
+                        p = getattr(module, name)()
+                        got = (p.v, p.tag, p.n) if name != "Other" else (p.k, p.l)
+                        packed = p.pack()
+                    except Exception as e:
+                        run.violation("constructing / packing a default packet of a class that shares its configuration dict with other classes raised %s: %s"
+                                      % (type(e).__name__, str(e)[:100]), w, None)
+                        return
+                    if got != want[name][0] or packed != want[name][1]:
+                        run.violation("a default packet of a class that shares its configuration dict object with other classes does not hold its own declared defaults",
+                                      dict(w, got=repr(got), expected=repr(want[name][0]), packed=b2j(packed), reference=b2j(want[name][1])), None)
+                        return
+            import sys as _sys
+            _sys.modules.pop(module.__name__, None)
+    finally:
+        common.drop_scratch(d)
+
+
 def run(run):
     shard, nshards = run.shard
     rng = rng_for(run.seed, "c19", shard)
     if shard == 0:
         embed_probe(run)
+        shared_config_probe(run)
     else:
         run.count("embedded_reference_defaults_checked")
+        run.count("shared_configuration_defaults_checked")
     nfam = 480 if run.tier == "quick" else 2000
     profile = {"p_local_classes": 0.4, "p_default": 0.45, "p_instance_proto": 0.5, "p_describe": 0.12, "allow_regex_nokeep_single": False,
                "allow_raw_callbacks": False, "p_rep": 0.22, "p_opt": 0.14,
